@@ -2,6 +2,14 @@
 "Maximum N repetitions"): BOUNDS[type] = [(clause id, Verus spec expression over the parsed message `m`)];
 INVARIANTS[type] = {loop ordinal: [extra loop invariants needed to carry the bound]}"""
 BOUNDS = {
+    # SR2025 layouts: the repetitive sequence of these types is mandatory (C09: a message without it is rejected)
+    '101': [('at_least_one_transaction', 'm.transactions@.len() >= 1')],
+    '104': [('at_least_one_transaction', 'm.transactions@.len() >= 1')],
+    '107': [('at_least_one_transaction', 'm.transactions@.len() >= 1')],
+    '110': [('at_least_one_cheque', 'm.cheques@.len() >= 1')],
+    '204': [('at_least_one_transaction', 'm.transactions@.len() >= 1')],
+    '210': [('at_least_one_transaction', 'm.transactions@.len() >= 1')],
+    '935': [('at_least_one_rate_change', 'm.rate_changes@.len() >= 1')],
     '920': [('sequences_1_to_100', '1 <= m.sequence@.len() <= 100')],
     '940': [('at_least_one_statement_line', 'm.statement_lines@.len() >= 1')],
 }
